@@ -57,9 +57,11 @@ def run(tier, seed):
             t = gennb.gen_triple(r, conflict_bias=bias, minor=r.choice([0, 1, 2, 3, 4, 5, 5]) if i % 2 else None)
             gen.append({'b': t[0], 'l': t[1], 'r': t[2], 'src': 'gen'})
         crafted = K.record_touched_triples() + K.minor_upgrade_triples() + K.concurrent_output_insert_triples() + K.crafted_triples(r, 40 if tier == 'quick' else 400, gennb)
-        full = corpus + fixtures + crafted + gen[:n_full]
         few = gen[n_full:]
         few_cfgs = K.pick_few(cfgs, r)
+        # (drawn after everything else so that the older families see the same random stream as before)
+        crafted = crafted + K.lifted_group_triples(r, 10 if tier == 'quick' else 150, gennb, quick=(tier == 'quick'))
+        full = corpus + fixtures + crafted + gen[:n_full]
         tasks = []   # (triple, cfg list, mode)
         for t in full: tasks.append((t, cfgs, 'git'))
         for t in few: tasks.append((t, few_cfgs, 'git'))
@@ -92,7 +94,7 @@ def run(tier, seed):
         chk.cov.update({
             'evaluations': evals, 'distinct_nontrivial': len(nontrivial),
             'rule': 'one evaluation = one merge_notebooks call (triple x configuration x tool availability). Triples: built-in corpus, the repository fixture triples, '
-                    'gennb.gen_triple with forced colliding edits (delete vs edit, insert next to edited/deleted, both edit source/outputs/metadata/attachments, similar and dissimilar concurrent inserts; minors 0-5). '
+                    'gennb.gen_triple with forced colliding edits (delete vs edit, insert next to edited/deleted, both edit source/outputs/metadata/attachments, similar and dissimilar concurrent inserts; minors 0-5); crafted families incl. a metadata conflict whose lifted decisions share a sub-key while a later-applied change exists. '
                     'Configurations: the full product of --merge-strategy x --input-strategy x --output-strategy x --no-ignore-transients read from the real parser (%d) + the web tool. '
                     'non-trivial = (triple, tool mode) pairs, distinct by canonical JSON, for which at least one configuration produced a decision' % (len(cfgs) - 1),
             'configurations': len(cfgs), 'triples_full_product': len(full), 'triples_few_configs': len(few), 'few_configs': len(few_cfgs),
